@@ -36,6 +36,10 @@ pub enum Move {
     /// leave member `who` (0 = i, 1 = j) exactly as last submitted and move only the other member's d1[k] so that
     /// the pair cancels under the last observed factors
     CancelHold(usize),
+    /// for this one submission, move d1 of member `who` along (c, -1) on the coordinates (k0, k0 + 1), where c
+    /// is a public quantity (one of that member's own challenges, its inverse, or a small constant): the
+    /// direction that a "random linear combination" of the response vector under c would not see
+    TouchKernel { who: usize, c_sel: usize, k0: usize },
 }
 
 #[derive(Clone, Debug, Serialize, Deserialize)]
@@ -70,6 +74,10 @@ pub struct Scenario {
     /// a member's effective factor is then the sum of the factors of its two copies
     #[serde(default)]
     pub duplicate_all: bool,
+    /// member i stands FIRST, the fillers follow, then member j and the rest: the pair is `fillers + 1`
+    /// positions apart inside one chunk (distances around powers of two)
+    #[serde(default)]
+    pub lead: bool,
 }
 
 pub struct C08;
@@ -80,6 +88,8 @@ struct State {
     d_off: Vec<Scalar>,
     r_off: Vec<Scalar>,
     s_off: Vec<Scalar>,
+    /// offsets on all coordinates of d1 that last for one submission
+    d_extra: Vec<Vec<Scalar>>,
     order: Vec<usize>,
 }
 
@@ -115,7 +125,7 @@ fn execute(sc: &Scenario, st: &mut RunStats) -> Vec<Violation> {
     // filler: one more honest single-commitment proof, repeated in front of the members
     let filler = if sc.fillers > 0 {
         let cfg = Config { bits: sc.bits, m: 1, cap: 1, ext: sc.ext };
-        let wit = WitnessSpec { values: vec![0], promises: vec![None], blind_seed: sc.c_seed ^ 0xF111, seed_nonce: None, zero_blind: vec![], same_as_prev: vec![], special_blind: None };
+        let wit = WitnessSpec { values: vec![0], promises: vec![None], blind_seed: sc.c_seed ^ 0xF111, seed_nonce: None, zero_blind: vec![], same_as_prev: vec![], same_as_first: vec![], special_blind: None };
         let ctx = Context { label: 5, extra: None };
         let built = build::<FreePoint>(&cfg, &wit);
         match prove_mode::<FreePoint>(&ctx, &built.statement, &built.witness, &RngMode::Healthy(sc.c_seed ^ 0xF112)).0 {
@@ -140,28 +150,39 @@ fn execute(sc: &Scenario, st: &mut RunStats) -> Vec<Violation> {
     if sc.duplicate_all {
         st.fault("every_member_submitted_twice");
     }
+    if sc.lead && sc.i % n != sc.j % n {
+        st.fault("pair_separated_by_fillers_inside_one_chunk");
+    }
     let mut state = State {
         parts: honest.clone(),
         d_off: vec![Scalar::ZERO; n],
         r_off: vec![Scalar::ZERO; n],
         s_off: vec![Scalar::ZERO; n],
+        d_extra: vec![vec![Scalar::ZERO; sc.ext]; n],
         order: (0..n).collect(),
     };
     let mut crng = SimRng::new(sc.c_seed);
     let k = sc.k % sc.ext;
     // submission closure
-    let submit = |state: &State, st: &mut RunStats| -> Result<(bool, Vec<Scalar>, Vec<[u8; 96]>), Violation> {
+    let submit = |state: &State, st: &mut RunStats| -> Result<(bool, Vec<Scalar>, Vec<Vec<u8>>, Vec<Vec<Scalar>>), Violation> {
         let mut proofs: Vec<RangeProof<FreePoint>> = Vec::new();
-        let mut resp: Vec<[u8; 96]> = vec![[0u8; 96]; state.parts.len()];
+        let mut resp: Vec<Vec<u8>> = vec![Vec::new(); state.parts.len()];
         for (mi, hp) in state.parts.iter().enumerate() {
             let mut p = hp.clone();
             let d = ProofParts::scalar(&p.d1[k]).unwrap() + state.d_off[mi];
             p.d1[k] = d.to_bytes();
             p.r1 = (ProofParts::scalar(&p.r1).unwrap() + state.r_off[mi]).to_bytes();
             p.s1 = (ProofParts::scalar(&p.s1).unwrap() + state.s_off[mi]).to_bytes();
-            resp[mi][..32].copy_from_slice(&p.d1[k]);
-            resp[mi][32..64].copy_from_slice(&p.r1);
-            resp[mi][64..].copy_from_slice(&p.s1);
+            for (kk, x) in state.d_extra[mi].iter().enumerate() {
+                if *x != Scalar::ZERO {
+                    p.d1[kk] = (ProofParts::scalar(&p.d1[kk]).unwrap() + x).to_bytes();
+                }
+            }
+            for dd in p.d1.iter() {
+                resp[mi].extend_from_slice(dd);
+            }
+            resp[mi].extend_from_slice(&p.r1);
+            resp[mi].extend_from_slice(&p.s1);
             proofs.push(FreePoint::from_bytes(&p.to_bytes()).map_err(|e| {
                 Violation::new("harness:perturbed_proof_undecodable", "setup", format!("{:?}", e))
             })?);
@@ -169,6 +190,22 @@ fn execute(sc: &Scenario, st: &mut RunStats) -> Vec<Violation> {
         let mut ord_sts: Vec<RangeStatement<FreePoint>> = Vec::new();
         let mut ord_pr: Vec<RangeProof<FreePoint>> = Vec::new();
         let mut ctxs: Vec<&Context> = Vec::new();
+        // layout: fillers first and the members behind them, or (lead) member i, the fillers, member j, the rest
+        let (pi, pj) = (sc.i % state.parts.len(), sc.j % state.parts.len());
+        let member_order: Vec<usize> = if sc.lead && pi != pj {
+            let mut v = vec![pj];
+            v.extend(state.order.iter().copied().filter(|m| *m != pi && *m != pj));
+            v
+        } else {
+            state.order.clone()
+        };
+        let mut first_pos: Vec<usize> = vec![usize::MAX; state.parts.len()];
+        if sc.lead && pi != pj {
+            first_pos[pi] = 0;
+            ord_sts.push(statements[pi].clone());
+            ord_pr.push(proofs[pi].clone());
+            ctxs.push(&sc.members[pi].ctx);
+        }
         if let Some((fctx, fst, fpr)) = &filler {
             for _ in 0..sc.fillers {
                 ord_sts.push(fst.clone());
@@ -176,10 +213,18 @@ fn execute(sc: &Scenario, st: &mut RunStats) -> Vec<Violation> {
                 ctxs.push(fctx);
             }
         }
-        for _copy in 0..(if sc.duplicate_all { 2 } else { 1 }) {
-            ord_sts.extend(state.order.iter().map(|i| statements[*i].clone()));
-            ord_pr.extend(state.order.iter().map(|i| proofs[*i].clone()));
-            ctxs.extend(state.order.iter().map(|i| &sc.members[*i].ctx));
+        for mi in member_order.iter() {
+            first_pos[*mi] = ord_sts.len();
+            ord_sts.push(statements[*mi].clone());
+            ord_pr.push(proofs[*mi].clone());
+            ctxs.push(&sc.members[*mi].ctx);
+        }
+        if sc.duplicate_all {
+            for mi in state.order.iter() {
+                ord_sts.push(statements[*mi].clone());
+                ord_pr.push(proofs[*mi].clone());
+                ctxs.push(&sc.members[*mi].ctx);
+            }
         }
         let obs = observe_verify(&ctxs, &ord_sts, &ord_pr, if sc.owner_mode { VerifyAction::RecoverAndVerify } else { VerifyAction::VerifyOnly })
             .map_err(|e| Violation::new("harness:observation_unavailable", "observe", e.0))?;
@@ -206,10 +251,17 @@ fn execute(sc: &Scenario, st: &mut RunStats) -> Vec<Violation> {
             // effective factor of the member: the sum over its copies
             w.push(-hits.iter().fold(Scalar::ZERO, |a, h| a + **h));
         }
-        Ok((accepted, w, resp))
+        // the challenges of each member's own transcript (first copy), as drawn in this submission
+        let mut chal: Vec<Vec<Scalar>> = vec![Vec::new(); state.parts.len()];
+        for (mi, pos) in first_pos.iter().enumerate() {
+            if let Some(v) = obs.views.get(*pos) {
+                chal[mi] = v.challenges.clone();
+            }
+        }
+        Ok((accepted, w, resp, chal))
     };
     // honest submission: must be accepted, factors must be non-zero
-    let (acc0, mut w_prev, mut resp_prev) = match submit(&state, st) {
+    let (acc0, mut w_prev, mut resp_prev, mut chal_prev) = match submit(&state, st) {
         Ok(x) => x,
         Err(v) => {
             out.push(v);
@@ -226,6 +278,7 @@ fn execute(sc: &Scenario, st: &mut RunStats) -> Vec<Violation> {
     state.d_off[i] = crng.scalar_nz();
     state.d_off[j] = -state.d_off[i];
     for (ri, mv) in std::iter::once(&Move::Resubmit).chain(sc.moves.iter()).enumerate() {
+        state.d_extra.iter_mut().for_each(|v| v.iter_mut().for_each(|x| *x = Scalar::ZERO));
         match mv {
             Move::CancelPair => {
                 let c = crng.scalar_nz();
@@ -268,6 +321,27 @@ fn execute(sc: &Scenario, st: &mut RunStats) -> Vec<Violation> {
             Move::Resubmit => {
                 st.fault("resubmit");
             },
+            Move::TouchKernel { who, c_sel, k0 } => {
+                let t = if *who == 0 { i } else { j };
+                if sc.ext >= 2 {
+                    let ch = &chal_prev[t];
+                    let c = match *c_sel {
+                        0 if !ch.is_empty() => ch[ch.len() - 1],
+                        1 if !ch.is_empty() => ch[0],
+                        2 if ch.len() > 1 => ch[1],
+                        3 if ch.len() > 2 => ch[2 + (*k0 % (ch.len() - 2))],
+                        4 if !ch.is_empty() => ch[ch.len() - 1].invert(),
+                        5 => Scalar::ONE,
+                        6 => -Scalar::ONE,
+                        _ => Scalar::from(2u64),
+                    };
+                    let k0 = *k0 % (sc.ext - 1);
+                    let tau = crng.scalar_nz();
+                    state.d_extra[t][k0] = c * tau;
+                    state.d_extra[t][k0 + 1] = -tau;
+                    st.fault("adaptive_touch_along_public_kernel");
+                }
+            },
             Move::CancelHold(who) => {
                 let (held, moved) = if *who == 0 { (i, j) } else { (j, i) };
                 if held != moved {
@@ -280,14 +354,14 @@ fn execute(sc: &Scenario, st: &mut RunStats) -> Vec<Violation> {
                 }
             },
         }
-        let (acc, w, resp) = match submit(&state, st) {
+        let (acc, w, resp, chal) = match submit(&state, st) {
             Ok(x) => x,
             Err(v) => {
                 out.push(v);
                 return out;
             },
         };
-        let invalid = state.d_off.iter().chain(state.r_off.iter()).chain(state.s_off.iter()).any(|s| *s != Scalar::ZERO);
+        let invalid = state.d_off.iter().chain(state.r_off.iter()).chain(state.s_off.iter()).chain(state.d_extra.iter().flatten()).any(|s| *s != Scalar::ZERO);
         st.event(format!(
             "round {} move {:?} order {:?} accepted={} w={}",
             ri,
@@ -339,6 +413,7 @@ fn execute(sc: &Scenario, st: &mut RunStats) -> Vec<Violation> {
         }
         w_prev = w;
         resp_prev = resp;
+        chal_prev = chal;
     }
     out
 }
@@ -355,7 +430,7 @@ impl Check for C08 {
     }
 
     fn rule(&self) -> String {
-        "each seeded run is an adaptive game against the real batch verifier over the free module: 2-5 honest proofs over one generator set (bits*m >= 2, ext 1..6, mixed aggregation), a pair (i, j) and coordinate k; the adversary submits, reads the factors w_i(t), w_j(t) actually used from the verifier's final MSM (scalar on B_i), and chooses the next perturbation of d1[k] (delta_i = c*w_j, delta_j = -c*w_i: exact cancellation if the factors stay), optionally also touching r1/s1 of one member, permuting the batch, holding one member exactly as last submitted while adapting only the other, or solving a three-member linear dependency; the members stand alone, behind 256+ fillers, or at the end of an exactly full chunk of 256; 8 rounds (64 thorough); invariants after every submission: a batch with an invalid member is rejected, every factor is non-zero, the ratio w_i/w_j changes whenever a response scalar of i or j changed; one evaluation = one verify_batch call; distinct = distinct event-log hashes".into()
+        "each seeded run is an adaptive game against the real batch verifier over the free module: 2-5 honest proofs over one generator set (bits*m >= 2, ext 1..6, mixed aggregation), a pair (i, j) and coordinate k; the adversary submits, reads the factors w_i(t), w_j(t) actually used from the verifier's final MSM (scalar on B_i), and chooses the next perturbation of d1[k] (delta_i = c*w_j, delta_j = -c*w_i: exact cancellation if the factors stay), optionally also touching r1/s1 of one member, permuting the batch, holding one member exactly as last submitted while adapting only the other, moving one member's d1 for one submission along a direction (c, -1) built from a public quantity c (its own challenges, their inverse, small constants), or solving a three-member linear dependency; the members stand alone, behind 256+ fillers, at the end of an exactly full chunk of 256, or with the pair 2..240 positions apart inside one chunk (distances around powers of two); 8 rounds (64 thorough); invariants after every submission: a batch with an invalid member is rejected, every factor is non-zero, the ratio w_i/w_j changes whenever a response scalar of i or j changed; one evaluation = one verify_batch call; distinct = distinct event-log hashes".into()
     }
 
     fn assumptions(&self) -> Vec<String> {
@@ -408,6 +483,7 @@ impl Check for C08 {
                 3 => Move::CancelTriple,
                 4 => Move::Resubmit,
                 5 | 6 => Move::CancelHold(rng.usize_below(2)),
+                7 if ext >= 2 => Move::TouchKernel { who: rng.usize_below(2), c_sel: rng.usize_below(8), k0: rng.usize_below(6) },
                 _ => Move::CancelPair,
             })
             .collect();
@@ -422,7 +498,15 @@ impl Check for C08 {
         let fillers = if fillers > 0 && fillers != usize::MAX && tier == Tier::Thorough && rng.chance(1, 4) { 512 + rng.usize_below(8) } else { fillers };
         let duplicate_all = rng.chance(1, 6);
         let fillers = if fillers == usize::MAX { 256 - n * if duplicate_all { 2 } else { 1 } } else { fillers };
-        Scenario { bits, ext, members, i, j, l: rng.usize_below(n), k: rng.usize_below(ext), c_seed: rng.next_u64(), moves, fillers, owner_mode, duplicate_all }
+        // one run in eight: the pair stands d positions apart inside one chunk
+        let lead = rng.chance(1, 8);
+        let fillers = if lead {
+            let d = *rng.pick(&[2usize, 3, 4, 8, 15, 16, 17, 31, 32, 33, 48, 63, 64, 65, 96, 127, 128, 129, 200, 240]);
+            d - 1
+        } else {
+            fillers
+        };
+        Scenario { bits, ext, members, i, j, l: rng.usize_below(n), k: rng.usize_below(ext), c_seed: rng.next_u64(), moves, fillers, owner_mode, duplicate_all, lead }
     }
 
     fn execute(&self, sc: &Scenario, st: &mut RunStats) -> Vec<Violation> {
@@ -489,7 +573,7 @@ impl Check for C08 {
 
     fn required_probes(&self, _tier: Tier) -> Vec<&'static str> {
         vec![
-            "adaptive_cancel_pair", "adaptive_touch_r1", "adaptive_touch_s1", "adaptive_permute", "adaptive_cancel_triple", "adaptive_cancel_hold_one",
+            "adaptive_cancel_pair", "adaptive_touch_r1", "adaptive_touch_s1", "adaptive_permute", "adaptive_cancel_triple", "adaptive_cancel_hold_one", "adaptive_touch_along_public_kernel", "pair_separated_by_fillers_inside_one_chunk",
             "resubmit", "ratio_checked_after_response_change", "members_beyond_chunk_limit", "batch_fills_exactly_one_chunk", "owner_mode_recover_and_verify", "every_member_submitted_twice",
         ]
     }
